@@ -418,7 +418,7 @@ func checkC16(r *Report) {
 	p := loadResolve("", false)
 	pk := p.pkg("resolve/pypi")
 	tableTrusted(r)
-	r.Explain = "Marker parsing and evaluation follow PEP 508 only if the finite tables they consult are right. Decided: VAR-SET (the environment variable table ⊇ PEP 508's variable list and each platform variable is bound to the variable of the same name), PREFIX-FREE (the table is a Go map tried in unspecified order, so no variable name may be a prefix of another), FIRST-BYTE (the first-byte filter of parseMarkerVar admits the first byte of every variable), OPS (markerOpsByLength contains every operator with a fixed spelling exactly once and no earlier spelling is a proper prefix of a later one), EVAL-EXHAUSTIVE (the switch in markerExpr.Eval names every operator except two reviewed ones), PLATFORM-DEFINED (every constant passed to platformVar is a key of the generated environment internal.Markers, so package initialisation cannot panic). Not decided: agreement of the splitter and evaluator with pip's packaging on all strings."
+	r.Explain = "Marker parsing and evaluation follow PEP 508 only if the finite tables they consult are right. Decided: VAR-SET (the environment variable table ⊇ PEP 508's variable list and each platform variable is bound to the variable of the same name), PREFIX-FREE (the table is a Go map tried in unspecified order, so no variable name may be a prefix of another), FIRST-BYTE (the first-byte filter of parseMarkerVar admits the first byte of every variable), OPS (markerOpsByLength contains every operator with a fixed spelling exactly once and no earlier spelling is a proper prefix of a later one), EVAL-EXHAUSTIVE (the switch in markerExpr.Eval names every operator except two reviewed ones), OP-DOMAIN (every marker operator that parseMarkerExpr forwards to semver.PyPI.ParseConstraint when both operands look like versions is an operator of semver's PyPI table; a string operator such as 'in' forwarded there makes the marker, and with it the whole resolution, fail), PLATFORM-DEFINED (every constant passed to platformVar is a key of the generated environment internal.Markers, so package initialisation cannot panic). Not decided: agreement of the splitter and evaluator with pip's packaging on all strings."
 	r.Assume = []string{"PEP 508 'Environment Markers' variable list and version_cmp/marker_op operator list"}
 	init := pkgVarInit(pk, "environmentVariables")
 	m, order, ok := mapLitByStringKey(pk, init)
@@ -609,6 +609,8 @@ func checkC16(r *Report) {
 			}
 		}
 	}
+	// OP-DOMAIN: operators forwarded to the version-constraint parser
+	markerOpDomainRule(r, p, pk, opConsts, spell)
 	// PLATFORM-DEFINED
 	ipk := p.pkg("resolve/pypi/internal")
 	if ipk == nil {
@@ -1098,4 +1100,99 @@ func attrSetMapField(p *Prog) *types.Var {
 		}
 	}
 	return nil
+}
+
+// markerOpDomainRule: see checkC16 (OP-DOMAIN).
+func markerOpDomainRule(r *Report, p *Prog, pk *packages.Package, opConsts []*types.Const, spell map[string]string) {
+	rule := "C16/OP-DOMAIN"
+	fd := funcDecl(pk, "envParser.parseMarkerExpr")
+	sp := p.pkg("semver")
+	if fd == nil || sp == nil {
+		r.bad(rule, "envParser.parseMarkerExpr", "", "function or package semver not found: anchor lost")
+		return
+	}
+	// operators of semver's PyPI row
+	pypiOps := map[string]bool{}
+	if cl, ok := pkgVarInit(sp, "operators").(*ast.CompositeLit); ok {
+		for _, el := range cl.Elts {
+			kv, ok := el.(*ast.KeyValueExpr)
+			if !ok {
+				continue
+			}
+			if c := usedConst(sp, kv.Key); c != nil && c.Name() == "PyPI" {
+				if m, _, ok := mapLitByStringKey(sp, kv.Value); ok {
+					for op := range m {
+						pypiOps[op] = true
+					}
+				}
+			}
+		}
+	}
+	if len(pypiOps) < 5 {
+		r.bad(rule, "semver.operators[PyPI]", "", "operator row not found: anchor lost")
+		return
+	}
+	// the guard in front of the ParseConstraint call
+	var guard *ast.IfStmt
+	ast.Inspect(fd.Body, func(n ast.Node) bool {
+		is, ok := n.(*ast.IfStmt)
+		if !ok || guard != nil {
+			return true
+		}
+		calls := false
+		ast.Inspect(is.Body, func(m ast.Node) bool {
+			if ce, ok := m.(*ast.CallExpr); ok {
+				if se, ok := ce.Fun.(*ast.SelectorExpr); ok && se.Sel.Name == "ParseConstraint" {
+					calls = true
+				}
+			}
+			return true
+		})
+		if calls {
+			guard = is
+			return false
+		}
+		return true
+	})
+	if guard == nil {
+		r.bad(rule, "parseMarkerExpr: constraint branch", p.pos(fd.Pos()), "no branch that builds a version constraint found: anchor lost")
+		return
+	}
+	excluded := map[string]bool{}
+	var conj func(e ast.Expr)
+	conj = func(e ast.Expr) {
+		e = ast.Unparen(e)
+		if be, ok := e.(*ast.BinaryExpr); ok {
+			switch be.Op {
+			case token.LAND:
+				conj(be.X)
+				conj(be.Y)
+			case token.NEQ:
+				if c := usedConst(pk, be.Y); c != nil && strings.HasSuffix(c.Type().String(), "pypi.markerOp") {
+					excluded[c.Name()] = true
+				}
+				if c := usedConst(pk, be.X); c != nil && strings.HasSuffix(c.Type().String(), "pypi.markerOp") {
+					excluded[c.Name()] = true
+				}
+			}
+		}
+	}
+	conj(guard.Cond)
+	n := 0
+	for _, c := range opConsts {
+		if c.Name() == "markerOpUnknown" {
+			continue
+		}
+		n++
+		key := "operator " + c.Name() + " (" + spell[c.Name()] + ")"
+		switch {
+		case excluded[c.Name()]:
+			r.ok(rule, key, p.pos(guard.Pos()), "kept out of the version-constraint branch by the guard")
+		case pypiOps[spell[c.Name()]]:
+			r.ok(rule, key, p.pos(guard.Pos()), "forwarded to semver.PyPI.ParseConstraint, whose PyPI row has this operator")
+		default:
+			r.bad(rule, key, p.pos(guard.Pos()), "when both operands look like versions this operator is forwarded to semver.PyPI.ParseConstraint, whose PyPI operator row does not have it: the constraint fails to parse, the marker is rejected and the whole resolution fails, although PEP 508 defines the operator on strings")
+		}
+	}
+	r.floor(rule, "marker operators considered", n, 9)
 }
